@@ -1,4 +1,4 @@
 From Coq Require Import Extraction ExtrOcamlBasic NArith ZArith List.
-From SV.Loader Require Import Pcdata StackMap.
+From SV.Loader Require Import Pcdata StackMap FuncName.
 Extraction Language OCaml.
-Separate Extraction marshal_binary pcvalue lookup wf_check build bit N.of_nat N.to_nat.
+Separate Extraction marshal_binary pcvalue lookup wf_check build bit make_funcname_tab written resolve N.of_nat N.to_nat.
